@@ -299,6 +299,24 @@ def translate(astnode, dialect, alias):
     return ("sql", sql, tr)
 
 
+_REUSED = {}
+
+
+def reused_translate(astnode, dialect, alias):
+    """The same translation on ONE long-lived visitor per dialect whose table_alias is
+    re-pointed before every call (other alias, no alias, same alias again)."""
+    v = _REUSED.get(dialect)
+    if v is None:
+        v = _REUSED[dialect] = DIALECTS[dialect](table_alias="first")
+        from odata_query import ast as A
+        v.visit(A.Compare(A.Eq(), A.Identifier("warm_up"), A.Integer("1")))   # it HAS been used
+    v.table_alias = alias
+    try:
+        return v.visit(astnode)
+    except Exception as e:
+        return "%s: %s" % (type(e).__name__, str(e)[:100])
+
+
 def one(ctx, t, dialect, alias):
     """-> (problems, sql) ; problems None when outside the fragment"""
     text = to_text(t)
@@ -314,6 +332,11 @@ def one(ctx, t, dialect, alias):
     sql = res[1]
     if not isinstance(sql, str):
         return ["(a) result is not a string: %r" % (sql,)], None
+    again = reused_translate(o[1], dialect, alias)
+    ctx.count("reused_visitor_compared")
+    if again != sql:
+        return ["(e) a visitor used before, with table_alias now %r, translates differently "
+                "from a fresh one: %s" % (alias, str(again)[:200])], sql
     probs = analyse(ctx, o[1], t, sql, res[2].events, alias)
     if alias and not probs:
         res0 = translate(o[1], dialect, None)
